@@ -5,6 +5,7 @@ from collections.abc import Sequence
 import copy
 import decimal
 import json
+import math
 from numbers import Real
 from typing import Any
 from typing import cast
@@ -678,7 +679,13 @@ def _adjust_discrete_uniform_high(low: float, high: float, step: float) -> float
 
     d_r = d_high - d_low
 
-    if d_r % d_step != decimal.Decimal("0"):
+    # ``high`` adjusted by this function is rounded to a float, so a range that has already been
+    # adjusted may miss being a multiple of ``step`` by that rounding error. It must be left as
+    # it is; otherwise the distribution would shrink by one step every time it is re-created,
+    # e.g., when it is restored from its JSON representation.
+    d_rem = d_r % d_step
+    d_tol = decimal.Decimal(math.ulp(high) + math.ulp(low))
+    if min(d_rem, d_step - d_rem) > d_tol:
         old_high = high
         high = float((d_r // d_step) * d_step + d_low)
         warnings.warn(
